@@ -17,7 +17,7 @@ the run is compared with an executable reference model of the SMT-LIB assertion 
 import itertools
 import os
 
-from ..absint import AbsRaise, AObj, ClassRef, Unsupported
+from ..absint import AbsRaise, AObj, ClassRef, Unsupported, ExtRef
 from ..common import get_repo, parallel_map
 from .. import proc
 from ..proc import Shape, S, BOOL
@@ -244,6 +244,11 @@ def _run_chunk(job):
                             problems.append("after step %d (%s): solver.assertions is %s, the live assertions are %s"
                                             % (i, NAMES[x], _names(w, got), _names(w, live)))
                             break
+                if not problems:
+                    # used as a context manager, the solver lets an exception of the with-block through
+                    exc_ = AObj("builtins.ValueError", {"args": ("raised inside the with-block",)}, tag="exc")
+                    if it.truth(it.call(it.getattr(solver, "__exit__"), [ExtRef("ValueError"), exc_, None]), "__exit__"):
+                        problems.append("as a context manager the solver swallows an exception raised in the with-block (__exit__ returns a true value)")
                 out.append((seq, "ok" if not problems else "bad", problems))
             except AbsRaise as ex:
                 out.append((seq, "raise", ["%s%s after %s" % (ex.cls_name, proc._args(ex), [NAMES[y] for y in seq])]))
@@ -1641,6 +1646,10 @@ def _portfolio_stack_job(seqs):
                                 break
                         if problems:
                             break
+                if not problems:
+                    exc_ = AObj("builtins.RuntimeError", {"args": ("every member failed",)}, tag="exc")
+                    if it.truth(it.call(it.getattr(pf, "__exit__"), [ExtRef("RuntimeError"), exc_, None]), "__exit__"):
+                        problems.append("`with Portfolio(...)`: an error raised in the block (e.g. every member failed) is swallowed by __exit__")
                 out.append((seq, "ok" if not problems else "bad", problems[0] if problems else ""))
             except AbsRaise as ex:
                 out.append((seq, "raise", "%s%s" % (ex.cls_name, proc._args(ex))))
